@@ -52,8 +52,6 @@ structure Envelope.WF (e : Envelope) (prev : Bytes) (timers : Bool) : Prop where
   cn : e.nn < 65536
   ce : e.ne + 1 < 65536
   tsig : IsTsig e.x e.alg e.ts e.fudge e.mac.length e.mac e.origId e.err e.olen e.other
-  ts : e.ts ≠ 0
-  fudge : e.fudge ≠ 0
   buffer : tsigBufferOK e.vars prev timers = true
 
 /-- the sender's side: every envelope carries the MAC `H` gives for its digest, where the request MAC of the first is
@@ -81,7 +79,7 @@ theorem chain_verifies (H : Bytes → Bytes) (now wall : Nat) (es : List Envelop
     have hv : tsigVerifyM e.wire prev timers now wall (fun d _ mac => mac == H d) = .accepted := by
       unfold Envelope.wire Envelope.msg
       exact generate_verifies e.id e.bits e.body e.nq e.na e.nn e.ne e.types wf.walks wf.noTsig wf.bits wf.auth wf.cq wf.ca wf.cn
-        wf.ce e.x e.alg e.ts e.fudge e.mac.length e.mac e.origId e.err e.olen e.other wf.tsig wf.ts wf.fudge prev timers now wall _
+        wf.ce e.x e.alg e.ts e.fudge e.mac.length e.mac e.origId e.err e.olen e.other wf.tsig prev timers now wall _
         (by simp only [beq_iff_eq]; exact hm) wf.buffer (hwin e (by simp)).1 (hwin e (by simp)).2
     simp only [List.map_cons, verifyChain, hv, if_true, List.length_cons]
     rw [ih e.mac true hrest (fun x hx => hwin x (by simp [hx]))]
